@@ -771,8 +771,30 @@ func unmarshalPolicing(r *evid.Run) {
 			mtypes.FuncScripts["F"] = mtypes.FromScript
 			return []jsonv2.Options{jsonv2.WithUnmarshalers(find("US_000").FuncU("F"))}
 		}},
+		// slice and map kinds: after an opening token has been read the remaining input may still fit the default
+		// representation one level further in ([[1,2]] into []int), so a wrongly forwarded skip would succeed
+		{"UnmarshalFromFunc on slice type", find("UL_000").Type, func() []jsonv2.Options {
+			mtypes.FuncScripts["F"] = mtypes.FromScript
+			return []jsonv2.Options{jsonv2.WithUnmarshalers(find("UL_000").FuncU("F"))}
+		}},
+		{"UnmarshalJSONFrom (pointer receiver) on slice type", find("UL_p00").Type, func() []jsonv2.Options { return nil }},
+		{"UnmarshalFromFunc on map type", find("UM_000").Type, func() []jsonv2.Options {
+			mtypes.FuncScripts["F"] = mtypes.FromScript
+			return []jsonv2.Options{jsonv2.WithUnmarshalers(find("UM_000").FuncU("F"))}
+		}},
 	}
-	vals := []string{`1`, `[1,2]`, `{"X":1}`, `{"X":{"X":2}}`}
+	vals := []string{`1`, `[1,2]`, `{"X":1}`, `{"X":{"X":2}}`, `[[1,2]]`, `[[[1]]]`, `{"a":{"a":1}}`, `{"a":1}`}
+	// fits: does the text fit the default representation of the carrier's underlying kind?
+	fits := func(t reflect.Type, val string) bool {
+		u := reflect.TypeOf(struct{ X int }{})
+		switch t.Kind() {
+		case reflect.Slice:
+			u = reflect.TypeOf([]int(nil))
+		case reflect.Map:
+			u = reflect.TypeOf(map[string]int(nil))
+		}
+		return jsonv2.Unmarshal([]byte(val), reflect.New(u).Interface()) == nil
+	}
 	reads := []byte("TVS")
 	var n, nt int64
 	var rec func(cur []byte)
@@ -849,7 +871,7 @@ func unmarshalPolicing(r *evid.Run) {
 											if _, ok, _ := m.Value(); !ok {
 												return false
 											}
-											if !strings.HasPrefix(val, `{"X":1`) {
+											if !fits(cars[ci].typ, val) {
 												return false
 											}
 										default:
@@ -863,6 +885,16 @@ func unmarshalPolicing(r *evid.Run) {
 								err := jsonv2.Unmarshal(doc, poss[pi].build(cars[ci].typ), opts...)
 								if (err == nil) != wantOK {
 									return fmt.Sprintf("Unmarshal(%s) err=%v, reference expects success=%v", doc, err, wantOK)
+								}
+								// the same through UnmarshalDecode on a caller-owned Decoder (no end-of-input check behind the
+								// value, so user code that consumed an opening token too many is not masked by the leftover)
+								mtypes.Reset()
+								mtypes.FromScript = &mtypes.Script{Ops: ops, Ret: ret, IgnoreErrors: ignore}
+								opts = cars[ci].opts()
+								dec := jsontext.NewDecoder(bytes.NewReader(doc))
+								err = jsonv2.UnmarshalDecode(dec, poss[pi].build(cars[ci].typ), opts...)
+								if (err == nil) != wantOK {
+									return fmt.Sprintf("UnmarshalDecode(%s) err=%v, reference expects success=%v", doc, err, wantOK)
 								}
 								return ""
 							}()
@@ -887,7 +919,7 @@ func unmarshalPolicing(r *evid.Run) {
 	rec(nil)
 	r.Evaluations.Add(n)
 	r.Nontrivial.Add(nt)
-	r.Bound("unmarshal policing: every read script of <=%d calls over {ReadToken, ReadValue, SkipValue} x 3 return kinds x {stop at, ignore} errors x %d positions x 2 carriers x %d input values", maxLen, len(poss), len(vals))
+	r.Bound("unmarshal policing: every read script of <=%d calls over {ReadToken, ReadValue, SkipValue} x 3 return kinds x {stop at, ignore} errors x %d positions x 5 carriers (struct, slice and map kinds) x %d input values", maxLen, len(poss), len(vals))
 }
 
 // ---- options visible inside the call; Reset forbidden ----
@@ -1056,6 +1088,8 @@ func Run(r *evid.Run) {
 	marshalDispatch(r)
 	unmarshalDispatch(r)
 	builtinFuncs(r)
+	repeatedUse(r)
+	byteStyleErrors(r)
 	marshalPolicing(r, "c17")
 	unmarshalPolicing(r)
 	insideCall(r)
